@@ -31,6 +31,8 @@ func init() {
 			{"C06.backend-writes", "every back end's StoreChunk reports success only after its write primitives completed", 8, func(c *Ctx) { c.writePrimitives("C06") }},
 			{"C06.retried-reader-fresh", "a reader consumed inside a retry cycle is created inside it (shared with C04/C14)", 1, func(c *Ctx) { c.retriedReaderFresh() }},
 			{"C06.workers-started", "every loop that starts pool workers starts one per unit of the worker count (none is skipped for n == 1)", 6, func(c *Ctx) { c.workersStarted() }},
+			{"C06.pooled-memory", "nothing taken from a sync.Pool and given back by a function leaves that function (shared with C20)", 1, func(c *Ctx) { c.pooledMemoryEscapes() }},
+			{"C06.feeder-watches-group", "the select that feeds pool workers watches the errgroup context, so a failed worker stops the feeder", 5, func(c *Ctx) { c.feederWatchesGroup() }},
 			{"C06.errors-not-dropped", "no error of the operations this property depends on is dropped", 1, func(c *Ctx) { c.errorsNotDropped("C06") }},
 		},
 	})
